@@ -100,7 +100,7 @@ def s_cfg(c):
         str(c["type"]), s_list(c["timing"], s_timing), str(c["max"]), s_list(c["tags"]),
         str(int(c["delay"])), s_odt(c["start"]), s_odt(c["stop"]), str(int(c["skip"])),
         str(c["wnum"]), str(c["wden"]), s_list(c["args"]),
-        s_list(c["kwargs"], lambda kv: "%d %d" % kv), s_list(c["outs"], lambda b: str(int(b)))])
+        s_list(c["kwargs"], lambda kv: "%d %d" % tuple(kv)), s_list(c["outs"], lambda b: str(int(b)))])
 
 
 def s_otags(t):
@@ -145,7 +145,7 @@ def s_op(o, order=None, table=None):
     if k == "EXEC":
         tb = table or []
         return "EXEC %d %s %s" % (int(o[1]), s_list(order or []),
-                                  s_list(tb, lambda e: "%d %d %d" % e))
+                                  s_list(tb, lambda e: "%d %d %d" % tuple(e)))
     raise ValueError(o)
 
 
